@@ -138,11 +138,15 @@ def correspond_c20(tier, impl_only=False):
             a = runs[0][c["id"]]
             i = c["id"]
             ext = EXT[c["syntax"]]
-            how = ["abs", "rel", "inline"][k % 3] if c["syntax"] == "dsl" else ["abs", "rel"][k % 2]
+            # (round 11, N09) `relup`: a relative path that climbs out of the crate root (`../updefs/..`), with a decoy at the
+            # same path taken without the `..`
+            how = ["abs", "rel", "inline", "relup"][k % 4] if c["syntax"] == "dsl" else ["abs", "rel", "relup"][k % 3]
             if how == "inline":
                 inv = f"::device_driver::create_device!(device_name: {c['device_name']}, dsl: {{ {a['source']} }});"
             elif how == "abs":
                 inv = f"::device_driver::create_device!(device_name: {c['device_name']}, manifest: \"{defs}/m{i}.{ext}\");"
+            elif how == "relup":
+                inv = f"::device_driver::create_device!(device_name: {c['device_name']}, manifest: \"../updefs/./m{i}.{ext}\");"
             else:
                 inv = f"::device_driver::create_device!(device_name: {c['device_name']}, manifest: \"defs/m{i}.{ext}\");"
             mods.append((f"mac_{i}", inv))
@@ -157,10 +161,17 @@ def correspond_c20(tier, impl_only=False):
         os.makedirs(defs, exist_ok=True)
         decoys = os.path.join(d, "defs")            # same relative path under the compiler's working directory
         os.makedirs(decoys, exist_ok=True)
+        updefs, updecoys = os.path.join(d, "updefs"), os.path.join(d, "probe", "updefs")
+        os.makedirs(updefs, exist_ok=True)
+        os.makedirs(updecoys, exist_ok=True)
         for c in cand:
             fn = "m%d.%s" % (c["id"], EXT[c["syntax"]])
             with open(os.path.join(defs, fn), "w") as f:
                 f.write(runs[0][c["id"]]["source"])
+            with open(os.path.join(updefs, fn), "w") as f:
+                f.write(runs[0][c["id"]]["source"])
+            with open(os.path.join(updecoys, fn), "w") as f:
+                f.write("this file is not the manifest `../updefs/..` names: `..` leaves the crate root\n")
             with open(os.path.join(decoys, fn), "w") as f:
                 f.write("this file is not the crate's manifest: relative paths are relative to the crate root\n")
         okb, errors, out, stderr = probe.cargo_check(d, run=True)
